@@ -113,7 +113,7 @@ def run(out: common.Outcome, explore: int = 0) -> None:
                                      end_timestamp=en, application_name="a", parent_event_id=None if i == 0 else "e0",
                                      child_event_ids=[f"e{j}" for j in range(1, len(ends))] if i == 0 else [])
         try:
-            got = {p["eventId"]: p["timestamp"] for p in sequence_otel_event_job(evs)}
+            got = {p["eventId"]: p["timestamp"] for p in sequence_otel_event_job(evs, async_flag=(k % 3 == 2))}
         except Exception as e:  # noqa
             got = {"ERR": type(e).__name__}
         n_sq += 1
